@@ -54,6 +54,7 @@ class Profile:
     p_near_tie: float = 0.0
     min_cont_states: int = 0
     max_RC: int = 2
+    min_RC: int = 0
     extra: dict = field(default_factory=dict)
 
 
@@ -287,7 +288,7 @@ def model_specs(draw, prof: Profile = Profile()):
         if force_sd:
             RC = d.subset(dchoices, 1, max(1, len(dchoices) - 1))
         else:
-            RC = d.subset(dchoices, 0, prof.max_RC)
+            RC = d.subset(dchoices, prof.min_RC, prof.max_RC)
         RC = [c for c in dchoices if c in RC]
         per = Tp > 1 and d.bool(prof.p_period_filter)
         if filter_mode == "drop":
@@ -402,8 +403,15 @@ def model_specs(draw, prof: Profile = Profile()):
             pexpr = f" + xp.abs({pn})"
             pexpr_inl = f" + xp.abs({params['budget_constraint'][pn]!r})"
             args.append(pn)
-        margin = f"{lhs}{extra}{pexpr} - {c} + 1.3e-06"
-        margin_inl = f"{lhs}{extra}{pexpr_inl} - {c} + 1.3e-06"
+        if d.bool(0.3):
+            # lower-bound variant (c >= bound): the LARGEST grid point is always feasible, feasible
+            # points come last on the grid
+            cmax = float(grid_nodes(choices[c])[-1])
+            margin = f"{c} - xp.minimum({lhs}{extra}{pexpr}, {cmax}) + 1.3e-06"
+            margin_inl = f"{c} - xp.minimum({lhs}{extra}{pexpr_inl}, {cmax}) + 1.3e-06"
+        else:
+            margin = f"{lhs}{extra}{pexpr} - {c} + 1.3e-06"
+            margin_inl = f"{lhs}{extra}{pexpr_inl} - {c} + 1.3e-06"
         functions["budget_constraint"] = dict(
             args=list(dict.fromkeys(args)), body=f"{margin} >= 0", margin=margin
         )
